@@ -6,6 +6,7 @@ code on stable vocabularies by the oracle of ./check C13.
 -/
 import RosedVerif.Spec.AlignLemmas
 import RosedVerif.Model.AlignRefine
+import RosedVerif.Model.BridgeAlign
 namespace RosedVerif.Props
 open RosedVerif.Spec
 variable {α : Type} (tk : Toks α)
@@ -57,5 +58,21 @@ theorem C13_refines [DecidableEq α] (cx : RosedVerif.Ctx α) (htriv : ∀ s, cx
 /-! non-vacuity: widths ≤ 0, whitespace-only line, odd padding -/
 example : Spec.alignCenter ⟨(· == 0), 0, 99⟩ 6 [0, 1, 2, 3, 0] = [0, 0, 1, 2, 3, 0] := by decide
 example : Spec.alignLeft ⟨(· == 0), 0, 99⟩ (-2) [0, 0] = [] := by decide
+
+/-- **bridge to code points**: on a stable vocabulary containing the space, the model of
+AlignLineLeft/Right/Center run on CODE POINTS with the real UAX #29 segmentation returns a text
+whose clusters are exactly the specification's result on the input's clusters — so the shape,
+exact-width and long-line clauses above hold for code-point text, whatever the encoding of its
+clusters.  (No side condition on hidden spaces is needed here.) -/
+theorem C13_code_points {V : List (List Int)} (hV : VocabStable V = true) (hsp : [0x20] ∈ V)
+    (toks : List (List Int)) (ht : ∀ t ∈ toks, t ∈ V) (w : Int) :
+    clusters cxA (RosedVerif.alignLeft cxA toks.flatten w) =
+      Spec.alignLeft ⟨cxB.isSpace, cxB.sp, cxB.hy⟩ w toks ∧
+    clusters cxA (RosedVerif.alignRight cxA toks.flatten w) =
+      Spec.alignRight ⟨cxB.isSpace, cxB.sp, cxB.hy⟩ w toks ∧
+    clusters cxA (RosedVerif.alignCenter cxA toks.flatten w) =
+      Spec.alignCenter ⟨cxB.isSpace, cxB.sp, cxB.hy⟩ w toks :=
+  ⟨alignLeft_bridge_clusters hV hsp toks ht w, alignRight_bridge_clusters hV hsp toks ht w,
+   alignCenter_bridge_clusters hV hsp toks ht w⟩
 
 end RosedVerif.Props
